@@ -224,6 +224,26 @@ def _body_open_pos(text):
     return None
 
 
+_ann_cache = {}
+
+
+def _in_annotation(gen_path, line):
+    """True if `line` (1-based) of the generated file lies inside a //@+ ... //@- block."""
+    if gen_path not in _ann_cache:
+        marks = set()
+        skip = False
+        for ln, text in enumerate(open(gen_path, encoding="utf-8").read().split("\n"), 1):
+            s = text.strip()
+            if s == "//@+":
+                skip = True
+            elif s == "//@-":
+                skip = False
+            elif skip:
+                marks.add(ln)
+        _ann_cache[gen_path] = marks
+    return line in _ann_cache[gen_path]
+
+
 def count_clauses(gen_path, info):
     """Count contract clauses woven into verified regions (requires/ensures/invariant/decreases/assert)."""
     lines = open(gen_path, encoding="utf-8").read().split("\n")
@@ -324,7 +344,16 @@ def check_unit_once(name, unit, tier, contract_only=()):
         if reg is None:
             reg = region_of(info, e["line"])
         sem = bool(SEM_RE.search(e["msg"]))
+        # is the failing program point part of the code taken from /repo (e.g. the call of a function whose
+        # precondition fails), or does it lie inside woven annotation text (assert / invariant / lemma call / ensures)?
+        site_in_code = False
+        if reg is not None and "precondition not satisfied" in e["msg"]:
+            a, b = reg["gen_lines"]
+            inside = [ln for ln in e["lines"] if a <= ln <= b]
+            if inside:
+                site_in_code = not _in_annotation(gen, inside[-1])
         rec = {"msg": e["msg"], "gen_line": e["line"], "region": reg["name"] if reg else None,
+               "site_in_code": site_in_code,
                "contract_only": bool(reg and reg.get("contract_only")),
                "region_mode": reg.get("mode") if reg else None,
                "repo_loc": ("%s:%d-%d" % reg["loc"]) if reg and "loc" in reg else None,
